@@ -196,6 +196,20 @@ def run(ctx):
                 if n >= 1:
                     nargs = [("np", T.ident("k%d" % (j + 1)), a) for j, a in enumerate(args)]
                     judge(ctx, name, nargs, CONTEXTS[idx % 4], "custom:named%d" % n)
+    # named parameters whose NAMES repeat: every sequence of 2..5 names over {a, b, ns.a} (a call
+    # keeps each argument, in source order, whatever it is called), custom calls and built-ins
+    import itertools
+    pool = [T.ident("a"), T.ident("b"), ("id", "a", ("ns",))]
+    for name in ["my.func", "a.b.c", "concat", "substring", "length", "now"]:
+        for n in range(2, 6):
+            for pat in itertools.product(range(3), repeat=n):
+                if len(set(pat)) == n:
+                    continue        # all distinct: covered above
+                idx += 1
+                if not ctx.mine(idx):
+                    continue
+                nargs = [("np", pool[k], arg_of_kind((idx + j) % N_KINDS, j + 1)) for j, k in enumerate(pat)]
+                judge(ctx, name, nargs, CONTEXTS[idx % 4], "named-repeated:%d" % n)
     ctx.count("exhaustive_complete")
     # thorough: random argument shapes
     if ctx.thorough():
